@@ -9,6 +9,7 @@ case:  [X] <backend> <ttl0,ttl1,…> <event>…        backend ∈ memory redis 
   look:<n>:<tid>  rem:<n>:<tid>  end:<n>:<tid>  adv:<ms>  advw:<ms>  advs:<ms>  rega:<n>:<nid>:<addr>  geta:<n>:<nid>
   poll:<n>:<tid>:<k>  the polling lookup of node n runs its first k polls (obs found:… | pending | estore)
   pend:<n>:<tid>      it runs one more poll, then its context ends (obs found:… | ptimeout | estore)
+  remc:<n>:<tid>  remd:<n>:<tid>   RemoveWaitingTunnel under a cancelled / deadline-exceeded context (obs as rem)
   slook:<n>:<tid>     a lookup of node n starts, the store answers its Get, the reply is held back (obs pending | eparam)
   send:<n>:<tid>      the held reply arrives, that lookup completes (obs as look | skip when none is in flight)
   restart:<n>         node n loses all in-process state (bridges, node-local cache)
@@ -48,6 +49,8 @@ def parseEv (tok : String) : Option Ev :=
   | "open" :: n :: rest => do pure (.open_ (← n.toNat?) (← parseRec rest))
   | ["look", n, tid] => do pure (.look (← n.toNat?) (← strOfHex tid))
   | ["rem", n, tid] => do pure (.rem (← n.toNat?) (← strOfHex tid))
+  | ["remc", n, tid] => do pure (.remDead (← n.toNat?) (← strOfHex tid))
+  | ["remd", n, tid] => do pure (.remDead (← n.toNat?) (← strOfHex tid))
   | ["end", n, tid] => do pure (.endB (← n.toNat?) (← strOfHex tid))
   | ["adv", d] => do pure (.adv (← d.toNat?))
   | ["advw", d] => do pure (.advWall (← d.toNat?))
